@@ -11,7 +11,7 @@ from __future__ import annotations
 import ast
 
 from sa.pyfacts import attr_chain, call_name, norm
-from sa.q import Fn
+from sa.q import natom, Fn
 from sa.report import AnalysisError
 
 from .c05 import CONN, engine, engine_health, report_escapes
@@ -160,6 +160,50 @@ def run(repo, chk):
         if isinstance(v, ast.Subscript) and isinstance(v.slice, ast.Slice) and v.slice.upper is not None and "remaining_buffer_space" in norm(v.slice.upper) and "encode(" in norm(v.value):
             ok = True
     chk.ob("R3", "_write_connection_close_frame truncates the reason phrase to the space left", ok, "an arbitrarily long reason phrase (built from peer input by the HTTP/3 layer) makes the close frame exceed the packet", wc.loc(wc.node))
+    # the truncation leaves room for the fixed part of the frame: upper bound = remaining_buffer_space - K, capacity = K' + len
+    Kexpr = None
+    for st, t, v in rb:
+        up = v.slice.upper if isinstance(v, ast.Subscript) and isinstance(v.slice, ast.Slice) else None
+        if isinstance(up, ast.Call) and call_name(up) == "max" and len(up.args) == 2:
+            for a in up.args:
+                if isinstance(a, ast.BinOp) and isinstance(a.op, ast.Sub) and norm(a.left) == "builder.remaining_buffer_space":
+                    Kexpr = a.right
+    if isinstance(Kexpr, ast.Name):
+        defs = wc.assigns(chain=Kexpr.id)
+        if defs:
+            Kexpr = defs[0][2] if len(defs) == 1 else None
+
+    def kval(e, guards):
+        """reserved bytes on the path described by guards; IfExp on a test the path decides is resolved, otherwise the minimum"""
+        if e is None:
+            return None
+        if isinstance(e, ast.IfExp):
+            a, b = kval(e.body, guards), kval(e.orelse, guards)
+            t = norm(e.test)
+            if natom(t, True) in guards or (t, True) in guards:
+                return a
+            if natom(t, False) in guards or (t, False) in guards:
+                return b
+            return None if a is None or b is None else min(a, b)
+        if isinstance(e, ast.BinOp) and isinstance(e.op, ast.Mult):
+            a, b = kval(e.left, guards), kval(e.right, guards)
+            return None if a is None or b is None else a * b
+        if isinstance(e, ast.BinOp) and isinstance(e.op, ast.Add):
+            a, b = kval(e.left, guards), kval(e.right, guards)
+            return None if a is None or b is None else a + b
+        v = repo.const(wc.mod, e)
+        return v if isinstance(v, int) else None
+
+    for c in wc.calls(name="builder.start_frame"):
+        capn = next((k.value for k in c.keywords if k.arg == "capacity"), None)
+        Kp = None
+        if isinstance(capn, ast.BinOp) and isinstance(capn.op, ast.Add):
+            for side, other in ((capn.left, capn.right), (capn.right, capn.left)):
+                if norm(other) == "reason_length":
+                    kv = repo.const(wc.mod, side)
+                    Kp = kv if isinstance(kv, int) else None
+        K = kval(Kexpr, wc.lexical_guards(c, expand=False))
+        chk.ob("R3", f"_write_connection_close_frame: the truncation reserves at least the fixed part of `{norm(capn) if capn is not None else None}`", K is not None and Kp is not None and K >= Kp, f"reserved by the truncation: {K}, fixed part of the frame: {Kp}: a reason that has to be truncated makes the frame larger than the space left; start_frame refuses it and no CONNECTION_CLOSE is sent at all", wc.loc(c))
     sfs = wc.calls(name="builder.start_frame")
     for c in sfs:
         cap = next((norm(k.value) for k in c.keywords if k.arg == "capacity"), "")
